@@ -28,6 +28,10 @@ REQUIRED_THEOREMS = [
     "sphLaplace_conservative_poly", "sphLaplace_conservative_even_uniform", "cylLaplace_poly",
     "polarDivergence_poly", "sphDivergence_plain_poly", "sphDivergence_conservative_poly",
     "cylDivergence_poly", "polarVectorGradient_components", "cylVectorLaplace_poly",
+    "polarTensorDivergence_poly", "sphTensorDivergence_plain_poly", "sphTensorDivergence_conservative_poly",
+    "sphTensorDoubleDivergence_plain_poly", "sphTensorDoubleDivergence_conservative_poly",
+    "sphVectorGradient_components", "cart_operators_are_building_blocks",
+    "polarLaplace_remainder_bound", "sphLaplace_conservative_remainder_bound",
 ]
 RULE = ("matrix leg: seed-derived grids of the four stencil families (Cartesian 1-3 axes incl. UnitGrid, polar, "
         "spherical, cylindrical; 1-4 cells per axis, anisotropic dyadic spacings, with/without hole) x every registered "
